@@ -38,7 +38,7 @@ PROPS = {
             "MantraDex.C09Sys.emergency_withdraw_tx_effect", "MantraDex.C09Sys.uniqueOwners_nodup",
         ],
         "extra_modules": ["MantraDex.Properties.C09Sys"],
-        "streams": {"farmmath": (6000, 300000), "fm_hist": (60, 3000)},
+        "streams": {"farmmath": (6000, 300000), "fm_hist": (120, 3000)},
         "what": "THROUGH THE RUNTIME (C09Sys.emergency_withdraw_tx_effect): an accepted emergency withdrawal is signed by the position's owner, deletes the "
                 "position, leaves farms and the pool manager untouched, and moves EXACTLY: amount - penalty to the owner, the same share to every distinct owner of "
                 "a currently active farm on that LP token (active = started and not expired, as the handler selects them), the rest of the penalty to the fee "
@@ -59,7 +59,7 @@ PROPS = {
             "MantraDex.C10Sys.winv_step", "MantraDex.C10Sys.winv_init", "MantraDex.C10Sys.weights_covered_reachable",
         ],
         "extra_modules": ["MantraDex.Properties.C10H", "MantraDex.Properties.C10Sys"],
-        "streams": {"farmmath": (6000, 300000), "fm_hist": (60, 3000)},
+        "streams": {"farmmath": (6000, 300000), "fm_hist": (120, 3000)},
         "what": "weight curve: weight >= amount, <= 16*amount (multiplier at one year evaluated from the generated coefficients), "
                 "monotone in amount and duration, super-additive in amount (source of F-07); update_weights moves the user's and the "
                 "contract's latest weight by the same delta at epoch+1 (close: min(w, user weight), after the F-07 fix), so the total keeps covering "
@@ -82,7 +82,7 @@ PROPS = {
                      "MantraDex.C02Sys.lp_inv_step", "MantraDex.C02Sys.lp_inv_reachable", "MantraDex.C02Sys.pm_lp_balance_step_partial",
                      "MantraDex.C01All.all_inv_step", "MantraDex.C01All.all_inv_reachable", "MantraDex.C01All.pm_custody_all_reachable", "MantraDex.C01All.all_inv_init"],
         "extra_modules": ["MantraDex.Properties.C01Sys", "MantraDex.Properties.C02Sys", "MantraDex.Properties.C01All"],
-        "streams": {"pm_hist": (80, 4000), "faults": (30, 1500)},
+        "streams": {"pm_hist": (160, 4000), "faults": (45, 1500)},
         "what": "handler-level conservation law of the pool manager for every non-LP token: reserves' + outflow(messages) = reserves + inflow(funds) "
                 "for swap, routed swap (any length), withdraw, multi-asset deposit, pool creation (keeps nothing), config/ownership; the single-asset "
                 "first leg leaves reserves untouched and forwards exactly floor(a/2) to a self-call; a bank send moves exactly the listed coins. "
@@ -110,7 +110,7 @@ PROPS = {
                      "MantraDex.C14Lock.single_asset_locked_equals_two_step_partial", "MantraDex.C14Lock.single_asset_locked_equals_two_step_fields",
                      "MantraDex.C14Lock.single_asset_locks_for_sender"],
         "extra_modules": ["MantraDex.Properties.C14Eq", "MantraDex.Properties.C15Sys", "MantraDex.Properties.C14Lock"],
-        "streams": {"pm_hist": (80, 4000), "twin": (60, 3000), "faults": (30, 1500)},
+        "streams": {"pm_hist": (160, 4000), "twin": (120, 3000), "faults": (45, 1500)},
         "what": "single-asset deposits are refused on empty / larger pools; neither path can lock LP for someone other than the sender and an existing "
                 "position must belong to the receiver; first leg = simulate, buffer (expected balances, options), swap exactly floor(a/2) via a "
                 "reply-on-success self-call; reply = both balances must match, buffer cleared, deposit of half + simulated proceeds with the recorded "
@@ -139,7 +139,7 @@ PROPS = {
                      "MantraDex.C15Sys.new_positions_belong_to_signer_partial", "MantraDex.C15Sys.farms_change_only_by_authorised_tx",
                      "MantraDex.C15Sys.second_leg_receiver_defaults_to_pm"],
         "extra_modules": ["MantraDex.Properties.C15Sys"],
-        "streams": {"auth": (1, 1), "inst": (1500, 60000), "pm_hist": (40, 2000), "fm_hist": (40, 2000)},
+        "streams": {"auth": (1, 1), "inst": (1500, 60000), "pm_hist": (80, 2000), "fm_hist": (80, 2000)},
         "what": "ownership moves only when the pending owner accepts before expiry or the owner renounces; transfer/renounce need the owner; a renounced "
                 "contract rejects every ownership action; on all four contracts config/ownership messages need the owner (resp. pending owner) and no "
                 "funds, non-privileged messages never change config or ownership; farm expansion needs the farm owner, farm closing the farm owner or "
@@ -160,7 +160,7 @@ PROPS = {
                      "MantraDex.C16Sys.pools_static_step", "MantraDex.C16Sys.pools_static_reachable", "MantraDex.C16Sys.lp_denoms_unique_step",
                      "MantraDex.C16Tx.create_pool_tx_effect_partial", "MantraDex.PoolTx.Cx.create_pool_dup_tf", "MantraDex.PoolTx.Cx.create_pool_overflow"],
         "extra_modules": ["MantraDex.Properties.C16Sys", "MantraDex.Properties.C16Tx"],
-        "streams": {"pm_hist": (80, 4000)},
+        "streams": {"pm_hist": (160, 4000)},
         "what": "an accepted CreatePool has 2 (constant product) / 2-4 distinct assets (stableswap, amp != 0), matching decimals, valid fees (each < 100%, "
                 "total <= 20%), a well-formed fresh identifier (o.<given> / p.<counter+1>), attached exactly the creation + token-factory fees, and "
                 "emits exactly [send creation fee to collector]? ++ [create LP denom]; every later message keeps every pool and its static fields "
@@ -184,7 +184,7 @@ PROPS = {
                      "MantraDex.C17Sys.withdrawals_disabled_no_burn", "MantraDex.C17Sys.toggle_tx_only_named_pool",
                      "MantraDex.C17Sys.created_pool_enabled"],
         "extra_modules": ["MantraDex.Properties.C17NI", "MantraDex.Properties.C17Sys"],
-        "streams": {"pm_hist": (80, 4000), "twin": (60, 3000)},
+        "streams": {"pm_hist": (160, 4000), "twin": (120, 3000)},
         "what": "swaps disabled: direct swap rejected, any route through the pool rejected as a whole, a single-asset deposit's whole transaction "
                 "rejected (through the runtime: its inner swap is a reply-on-success sub-message); deposits disabled: every deposit shape rejected; "
                 "withdrawals disabled: rejected; swaps never change any switch; a toggle touches only the named pool and only its switches; "
@@ -202,7 +202,7 @@ PROPS = {
         "module": "MantraDex.Properties.C20", "ns": "MantraDex.C20",
         "theorems": ["step_error_restores", "failing_submsg_aborts", "pm_execute_reply_modes", "pm_reply_shape", "closeFarms_reply_modes",
                      "fm_execute_reply_modes", "fm_reply_no_effect", "failed_refund_tolerated"],
-        "streams": {"faults": (40, 2000), "pm_hist": (40, 2000), "fm_hist": (40, 2000)},
+        "streams": {"faults": (60, 2000), "pm_hist": (80, 2000), "fm_hist": (80, 2000)},
         "what": "contracts' part: every sub-message any pool-manager / farm-manager handler can emit is reply-never, except the single-asset deposit's "
                 "inner swap (success, id 1) and close-farm refunds (error, bank send only); the farm manager's reply changes nothing, the pool "
                 "manager's reply only continues the deposit; hence in the runtime a failing sub-message aborts its parent (failing_submsg_aborts) "
@@ -220,7 +220,7 @@ PROPS = {
                      "MantraDex.C02Sys.lp_funded_step", "MantraDex.C03Sys.cp_value_per_lp_step", "MantraDex.C03Sys.cp_value_per_lp_reachable",
                      "MantraDex.C16Tx.withdraw_liquidity_tx_effect_partial", "MantraDex.C16Tx.provide_liquidity_tx_effect_partial"],
         "extra_modules": ["MantraDex.Properties.C02Sys", "MantraDex.Properties.C03Sys", "MantraDex.Properties.C16Tx"],
-        "streams": {"mintmath": (3000, 150000), "pm_hist": (80, 4000)},
+        "streams": {"mintmath": (3000, 150000), "pm_hist": (160, 4000)},
         "what": "constant product: later mint = min over the two assets of floor(deposit*supply/reserve) <= the proportional contribution; x*y/supply^2 "
                 "never decreases through a deposit or a withdrawal; first mint + locked 1000 = floor(sqrt(d0*d1)); a withdrawal pays floor(reserve*burned/"
                 "supply) per asset (<= pro rata, > pro rata - 1) and any LP amount worth >= 1 unit of an asset gets a non-zero refund (after the F-02 fix); "
@@ -255,7 +255,7 @@ PROPS = {
         "theorems": ["cp_gross_formula", "cp_swap_k_mono", "performSwap_k_mono", "cp_round_trip_no_profit", "ss_swap_D_witness",
                      "MantraDex.C03Sys.cp_value_per_lp_step", "MantraDex.C03Sys.cp_value_per_lp_reachable"],
         "extra_modules": ["MantraDex.Properties.C03Sys"],
-        "streams": {"swapmath": (4000, 200000), "pm_hist": (60, 3000)},
+        "streams": {"swapmath": (4000, 200000), "pm_hist": (120, 3000)},
         "what": "constant product: gross output = floor(Y*o/(X+o)); x*y never decreases through compute_swap / perform_swap for every reserve, "
                 "offer and fee setting incl. zero fees; a swap-and-swap-back round trip never returns more than was put in. THROUGH THE RUNTIME (C03Sys): for every "
                 "constant-product pool, across every whole transaction of any kind by any account (direct swaps, every hop of a route incl. routes visiting the pool several times, the "
@@ -271,7 +271,7 @@ PROPS = {
                      "performSwap_ok", "swapHandler_messages", "routeHops_chain", "routeHops_fee_msgs",
                      "MantraDex.C04Sys.swap_tx_effect", "MantraDex.C12Sys.route_tx_effect"],
         "extra_modules": ["MantraDex.Properties.C04Sys", "MantraDex.Properties.C12Sys"],
-        "streams": {"swapmath": (4000, 200000), "pm_hist": (60, 3000)},
+        "streams": {"swapmath": (4000, 200000), "pm_hist": (120, 3000)},
         "what": "each fee = floor(gross*share) (never more); receiver gets gross minus all fees; perform_swap adds the offer in full and removes "
                 "exactly net+protocol+burn from the ask reserve, nothing else changes; a direct swap emits exactly [send net to receiver][burn]"
                 "[send protocol fee to collector] (each only when non-zero); each route hop consumes exactly the previous hop's output; route fee "
@@ -291,7 +291,7 @@ PROPS = {
                      "MantraDex.C06Sys.no_epoch_paid_twice_default_until",
                      "MantraDex.C07Sys.claimed_eq_ledger", "MantraDex.C07Sys.claimed_le_emitted", "MantraDex.C07Sys.claim_never_exhausted"],
         "extra_modules": ["MantraDex.Properties.C07Split", "MantraDex.Properties.C06Sys", "MantraDex.Properties.C07Sys"],
-        "streams": {"fm_hist": (80, 4000)},
+        "streams": {"fm_hist": (160, 4000)},
         "what": "END TO END OVER WHOLE HISTORIES (C06Sys): a ledger of every reward payment is derived from the history (the per-epoch terms of every ACCEPTED "
                 "top-level Claim; the coins a claim sends are exactly the sum of its entries, claim_pays_entries); in every history of account-signed transactions from a "
                 "fresh deployment (nested calls, replies, rollbacks, injected faults; epoch configuration unchanged): for every farm (identifier, LP token, emission rate) and "
@@ -317,7 +317,7 @@ PROPS = {
                      "MantraDex.C06Sys.claim_pays_entries", "MantraDex.C06Sys.entry_shape",
                      "MantraDex.C07Sys.owed_frozen_partial", "MantraDex.C07Sys.claim_never_exhausted", "MantraDex.C07Sys.claimed_eq_ledger"],
         "extra_modules": ["MantraDex.Properties.C07Split", "MantraDex.Properties.C06Sys", "MantraDex.Properties.C07Sys"],
-        "streams": {"fm_hist": (80, 4000)},
+        "streams": {"fm_hist": (160, 4000)},
         "also_tags": ["C06-overpaid"],   # C07 says "never more": the ledger monitor's over-payment tag decides C07 as well
         "what": "refinement core: the user scan and the total-weight scan of the compacted history compute the ledger's weight in effect (Spec.weightAt); "
                 "claim-time compaction preserves the weight in effect from the claimed epoch on (schedule independence); a farm's terms add up to "
@@ -339,7 +339,7 @@ PROPS = {
                      "MantraDex.C08Sys.withdraw_after_unlock", "MantraDex.C08Sys.withdraw_before_unlock_refused",
                      "MantraDex.C15Sys.positions_change_only_by_owner_tx_partial", "MantraDex.C15Sys.new_positions_belong_to_signer_partial"],
         "extra_modules": ["MantraDex.Properties.C08Sys", "MantraDex.Properties.C15Sys"],
-        "streams": {"fm_hist": (80, 4000)},
+        "streams": {"fm_hist": (160, 4000)},
         "what": "a non-emergency withdrawal is accepted only from the owner, for a closed position whose unlock instant (close time + unlocking "
                 "duration, boundary second included) is reached, pays exactly the recorded amount and deletes the position; an emergency request after "
                 "unlocking is the normal withdrawal; closing fixes expiring_at = now + duration; a partial close splits amount = remainder + part "
@@ -359,7 +359,7 @@ PROPS = {
                      "MantraDex.C05Sys.fm_inv_step", "MantraDex.C05Sys.fm_inv_reachable", "MantraDex.C05Sys.fm_custody_reachable",
                      "MantraDex.C05Sys.fm_inv_init"],
         "extra_modules": ["MantraDex.Properties.C05Sys"],
-        "streams": {"fm_hist": (80, 4000), "faults": (30, 1500)},
+        "streams": {"fm_hist": (160, 4000), "faults": (45, 1500)},
         "what": "handler-level conservation law of the farm manager for every token: liability' + outflow(messages) <= liability + inflow(funds), "
                 "where liability = sum of recorded position amounts + sum over farms of (funded - claimed); proved for every message kind "
                 "(positions create/expand/close/withdraw incl. emergency split, claim, farm create/expand/close, config). With the bank semantics "
@@ -379,7 +379,7 @@ PROPS = {
                      "MantraDex.C11Sys.farm_limit_reachable_final", "MantraDex.C11Sys.farm_limit_reachable_partial", "MantraDex.C11Sys.farm_limit_reachable_inv",
                      "MantraDex.C15Sys.farms_change_only_by_authorised_tx"],
         "extra_modules": ["MantraDex.Properties.C11Sys", "MantraDex.Properties.C15Sys"],
-        "streams": {"fm_hist": (80, 4000)},
+        "streams": {"fm_hist": (160, 4000)},
         "what": "create_farm takes exactly the reward (+ fee coin when a non-zero fee is due; one coin of reward+fee in the same denom), refunds a fee "
                 "overpayment and sends exactly the fee to the collector; records the full reward as budget, claimed 0, sender as owner, rate = "
                 "floor(reward/(end-start)), start > current epoch within the buffer; expand adds exactly the attached multiple of the rate and extends "
@@ -403,7 +403,7 @@ PROPS = {
                      "MantraDex.C12Sys.route_tx_simulation_agrees", "MantraDex.C12Sys.route_tx_equals_simulation_partial",
                      "MantraDex.C12Sys.route_tx_equals_simulation_counterexample", "MantraDex.C12Sys.reverse_query_plus_one_suffices_partial"],
         "extra_modules": ["MantraDex.Properties.C12Sys"],
-        "streams": {"swapmath": (4000, 200000), "pm_hist": (60, 3000)},
+        "streams": {"swapmath": (4000, 200000), "pm_hist": (120, 3000)},
         "what": "Simulation = Swap on all amounts in any state (both pool types); a swap leaves every other pool untouched; executing a route over "
                 "pairwise distinct pools yields exactly the chained simulation on the initial state; reverse quote + 1 suffices for zero fees "
                 "(general statement false for large asks: F-09 witness proved by kernel evaluation). THROUGH THE RUNTIME AND THE QUERY ENTRY POINTS (C12Sys, Model/Queries.lean): an "
@@ -422,7 +422,7 @@ PROPS = {
                      "cp_exact_proportion_accepted", "ss_exact_proportion_rejected_witness",
                      "MantraDex.C12Sys.swap_tx_within_slippage", "MantraDex.C12Sys.route_tx_min_receive"],
         "extra_modules": ["MantraDex.Properties.C12Sys"],
-        "streams": {"swapmath": (4000, 200000), "mintmath": (4000, 200000), "pm_hist": (60, 3000)},
+        "streams": {"swapmath": (4000, 200000), "mintmath": (4000, 200000), "pm_hist": (120, 3000)},
         "what": "swap/route: accept iff slippage/(return+slippage) <= min(tolerance or 1%, 50%) (or, with a belief price, iff return >= expected or "
                 "short by <= tolerance); monotone in the tolerance; > 50% capped; routes deliver >= minimum_receive or fail; constant-product deposit: "
                 "accept iff both deposit ratios*(1-tol) <= pool ratios, monotone, exact proportion always accepted, tolerance > 1 refused. "
